@@ -392,7 +392,11 @@ func (c *WSConn) ReadMessage() (int, []byte, error) {
 	}
 	for {
 		var m wsMsg
-		select { // messages already in flight are delivered before a close is noticed
+		// Messages already in flight are delivered before a close of the other
+		// end is noticed (as with a socket: data before FIN). A select with
+		// several ready cases picks at random, so `in` is polled again after a
+		// close has been seen.
+		select {
 		case m = <-c.in:
 		default:
 			select {
@@ -401,8 +405,12 @@ func (c *WSConn) ReadMessage() (int, []byte, error) {
 				c.readErr = errWSClosed
 				return 0, nil, c.readErr
 			case <-c.peer.closed:
-				c.readErr = io.ErrUnexpectedEOF
-				return 0, nil, c.readErr
+				select {
+				case m = <-c.in:
+				default:
+					c.readErr = io.ErrUnexpectedEOF
+					return 0, nil, c.readErr
+				}
 			}
 		}
 		switch m.typ {
